@@ -49,7 +49,14 @@ func showSegs(segs []Seg) string {
 	var parts []string
 	for _, g := range segs {
 		if g.Bytes == nil {
-			parts = append(parts, g.Name)
+			switch {
+			case g.Zeros:
+				parts = append(parts, "zeros("+g.Len.String()+")")
+			case g.Min != nil:
+				parts = append(parts, "minbytes("+g.Min.String()+")")
+			default:
+				parts = append(parts, g.Name)
+			}
 			continue
 		}
 		// compress runs
@@ -86,7 +93,21 @@ func (it *Interp) sliceSegs(v Value) ([]Seg, bool) {
 	case SliceV:
 		n, ok := it.ApplyTerm(x.Len).IsConst()
 		if !ok {
-			return nil, false
+			// a slice of symbolic length over an all-zero backing array: that many zero bytes
+			_, hi := it.ApplyTerm(x.Len).Bounds()
+			if !hi.IsInt64() || int(hi.Int64())+x.Lo > len(x.Arr.Kids) {
+				return nil, false
+			}
+			for i := 0; i < int(hi.Int64()); i++ {
+				k, isK := x.Arr.Kids[x.Lo+i].Val.(KInt)
+				if !isK || k.V.Sign() != 0 {
+					return nil, false
+				}
+			}
+			return []Seg{{Zeros: true, Len: it.ApplyTerm(x.Len)}}, true
+		}
+		if n.Sign() == 0 {
+			return nil, true
 		}
 		var bs []*Term
 		for i := 0; i < int(n.Int64()); i++ {
@@ -98,6 +119,9 @@ func (it *Interp) sliceSegs(v Value) ([]Seg, bool) {
 		}
 		return []Seg{{Bytes: bs}}, true
 	case KStr:
+		if len(x) == 0 {
+			return nil, true
+		}
 		var bs []*Term
 		for i := 0; i < len(x); i++ {
 			bs = append(bs, TInt(int64(x[i])))
@@ -325,11 +349,16 @@ func (fr *Frame) appendB(x *ssa.Call, args []Value) Value {
 	// abstract strings
 	_, aAbs := args[0].(AbsSlice)
 	_, bAbs := args[1].(AbsSlice)
+	if sv, ok := args[0].(SliceV); ok {
+		if _, isC := it.ApplyTerm(sv.Len).IsConst(); !isC {
+			aAbs = true
+		}
+	}
 	if isByte && (aAbs || bAbs) {
 		s0, ok0 := it.sliceSegs(args[0])
 		s1, ok1 := it.sliceSegs(args[1])
 		if !ok0 || !ok1 {
-			it.abortf("append of unknown strings in %s", fr.fn)
+			it.abortf("append of unknown strings (%s ; %s) in %s", show(args[0]), show(args[1]), fr.fn)
 		}
 		return AbsSlice{Segs: normSegs(append(append([]Seg{}, s0...), s1...))}
 	}
